@@ -406,11 +406,11 @@ Inductive ventry :=
 | EValUpdate (a : N) (oldv newv : validator)
 | EValDelete (a : N) (oldv : validator)
 | EValAddUBD (r : wrec)
-| EValDelWithdraw (r : wrec).
+| EValDelWithdraw (r : wrec) (pos : nat).   (* pos: only the repaired code records the position *)
 Definition v_dirtied (e : ventry) : option N :=
   match e with
   | EValCreate a | EValUpdate a _ _ | EValDelete a _ => Some a
-  | EValAddUBD _ | EValDelWithdraw _ => None
+  | EValAddUBD _ | EValDelWithdraw _ _ => None
   end.
 
 Record vside := mkVS {
@@ -480,13 +480,19 @@ Definition update_val_op (v : vside) (a role status : N) (stake token : Z) (payl
   | (v1, None) => (v1, false)
   | (v1, Some ov) => (update_validator v1 (mkV a role status stake token payload (v_deleted ov)) ov, true)
   end.
-(* RemoveValidator: the journal entry keeps the live object itself, whose deleted flag is then set *)
-Definition remove_validator (v : vside) (a : N) : vside * bool :=
+(* The switch [fx] selects the behaviour of the two validator-journal entries
+   that /verif/fixes/C09_validator_journal_reverts.diff repairs: false = the
+   code as it is in the repository now, true = the repaired code.  The harness
+   finds out which one the tree under test has and records it in every case. *)
+
+(* RemoveValidator.  Unrepaired: the journal entry keeps the live object itself,
+   whose deleted flag is then set.  Repaired: it keeps a copy taken before. *)
+Definition remove_validator (fx : bool) (v : vside) (a : N) : vside * bool :=
   match find (vals v) a with
   | None => (v, false)
   | Some x =>
     let x' := set_v_deleted true x in
-    let v1 := v_append (EValDelete a x') v in
+    let v1 := v_append (EValDelete a (if fx then x else x')) v in
     (decr_stat x (set_vals (set (vals v1) a x') (vindex v1) v1), true)
   end.
 Definition add_withdraw (v : vside) (r : wrec) : vside :=
@@ -502,11 +508,22 @@ Fixpoint drop_idx {A} (l : list A) (idx : list nat) (i : nat) : list A :=
   | [] => []
   | x :: r => if existsb (Nat.eqb i) idx then drop_idx r idx (S i) else x :: drop_idx r idx (S i)
   end.
-Definition remove_withdraws (v : vside) (idx : list nat) : option vside :=
-  match nths (queue v) idx with
+Fixpoint has_dup (l : list nat) : bool :=
+  match l with [] => false | x :: r => existsb (Nat.eqb x) r || has_dup r end.
+Fixpoint insert_desc (p : nat) (l : list nat) : list nat :=
+  match l with [] => [p] | x :: r => if Nat.leb x p then p :: l else x :: insert_desc p r end.
+Definition sort_desc (l : list nat) : list nat := fold_right insert_desc [] l.
+(* Unrepaired: RemoveRecords, then one entry per removed record in the caller's
+   order (a repeated index yields a nil record, which the loop dereferences).
+   Repaired: the records are read first, highest position first, each entry
+   remembers its position; then RemoveRecords. *)
+Definition remove_withdraws (fx : bool) (v : vside) (idx : list nat) : option vside :=
+  let order := if fx then sort_desc idx else idx in
+  if negb fx && has_dup idx then None else
+  match nths (queue v) order with
   | None => None
   | Some removed =>
-    Some (fold_left (fun acc r => v_append (EValDelWithdraw r) acc) removed
+    Some (fold_left (fun acc rp => v_append (EValDelWithdraw (fst rp) (snd rp)) acc) (combine removed order)
                     (set_queue (drop_idx (queue v) idx 0) v))
   end.
 
@@ -522,14 +539,22 @@ Fixpoint q_delete_last (q : list wrec) (r : wrec) : option (list wrec) :=
     end
   end.
 
-Definition v_entry_revert (e : ventry) (v : vside) : option vside :=
+(* WithdrawQueue.Insert of the repaired code: at position n, at the end if n is out of range *)
+Fixpoint ins_at {A} (n : nat) (x : A) (l : list A) : list A :=
+  match n, l with
+  | O, _ => x :: l
+  | S n', y :: r => y :: ins_at n' x r
+  | S _, [] => [x]
+  end.
+
+Definition v_entry_revert (fx : bool) (e : ventry) (v : vside) : option vside :=
   match e with
   | EValCreate a =>
     match find (vals v) a with
     | None => None
     | Some x => let v1 := decr_stat x v in Some (set_vals (del (vals v1) a) (rem (vindex v1) a) v1)
     end
-  | EValDelete a ov => Some (set_validator ov v)
+  | EValDelete a ov => Some (if fx then incr_stat ov (set_validator ov v) else set_validator ov v)
   | EValUpdate a ov nv =>
     let v1 := set_validator ov v in
     Some (if stake_equal nv ov then v1 else incr_stat ov (decr_stat nv v1))
@@ -538,20 +563,20 @@ Definition v_entry_revert (e : ventry) (v : vside) : option vside :=
     | [] => Some v
     | _ => match q_delete_last (queue v) r with Some q => Some (set_queue q v) | None => None end
     end
-  | EValDelWithdraw r => Some (set_queue (queue v ++ [r]) v)
+  | EValDelWithdraw r pos => Some (set_queue (if fx then ins_at pos r (queue v) else queue v ++ [r]) v)
   end.
 
-Fixpoint v_revert (n : nat) (v : vside) : option vside :=
+Fixpoint v_revert (fx : bool) (n : nat) (v : vside) : option vside :=
   match n with
   | O => Some v
   | S n' =>
     match j_entries (vjr v) with
     | [] => None
     | e :: rest =>
-      match v_entry_revert e v with
+      match v_entry_revert fx e v with
       | None => None
       | Some v1 =>
-        v_revert n' (set_vjr (mkJ rest (match v_dirtied e with
+        v_revert fx n' (set_vjr (mkJ rest (match v_dirtied e with
                                         | Some x => d_dec (j_dirties (vjr v1)) x
                                         | None => j_dirties (vjr v1) end)) v1)
       end
@@ -621,7 +646,7 @@ Fixpoint rev_search (l : list (N * nat)) (revid : N) (i : nat) : option (nat * n
   end.
 
 (* RevertToSnapshot; None = panic *)
-Definition revert_to_snapshot (s : state) (revid : N) : option state :=
+Definition revert_to_snapshot (fx : bool) (s : state) (revid : N) : option state :=
   match rev_search (revs s) revid 0 with
   | None => None
   | Some (idx, ji) =>
@@ -633,7 +658,7 @@ Definition revert_to_snapshot (s : state) (revid : N) : option state :=
       | None => None
       | Some (vidx, vji) =>
         if Nat.ltb (vjlen s) vji then None else
-        match v_revert (vjlen s - vji) (sv s) with
+        match v_revert fx (vjlen s - vji) (sv s) with
         | None => None
         | Some v' => Some (mkState a' v' (firstn idx (revs s)) (firstn vidx (vrevs s)) (next_rev s))
         end
@@ -667,7 +692,7 @@ Definition with_v (s : state) (v : vside) : state := mkState (sa s) v (revs s) (
 Definition b2z (b : bool) : Z := if b then 1%Z else 0%Z.
 
 (* one API call; the Z is the call's return value; None = panic *)
-Definition step (o : op) (s : state) : option (state * Z) :=
+Definition step (fx : bool) (o : op) (s : state) : option (state * Z) :=
   match o with
   | OAddBalance a v => Some (with_a s (add_balance (sa s) a v), 0%Z)
   | OSubBalance a v => Some (with_a s (sub_balance (sa s) a v), 0%Z)
@@ -687,25 +712,25 @@ Definition step (o : op) (s : state) : option (state * Z) :=
     let (v1, r) := create_validator (sv s) a role status stake token in Some (with_v s v1, b2z r)
   | OUpdateVal a role status stake token payload =>
     let (v1, r) := update_val_op (sv s) a role status stake token payload in Some (with_v s v1, b2z r)
-  | ORemoveValidator a => let (v1, r) := remove_validator (sv s) a in Some (with_v s v1, b2z r)
+  | ORemoveValidator a => let (v1, r) := remove_validator fx (sv s) a in Some (with_v s v1, b2z r)
   | OGetValidator a =>
     let (v1, r) := get_validator (sv s) a in
     Some (with_v s v1, match r with Some _ => 1%Z | None => 0%Z end)
   | OAddWithdraw r => Some (with_v s (add_withdraw (sv s) r), 1%Z)
   | ORemoveWithdraws idx =>
-    match remove_withdraws (sv s) idx with Some v1 => Some (with_v s v1, 1%Z) | None => None end
+    match remove_withdraws fx (sv s) idx with Some v1 => Some (with_v s v1, 1%Z) | None => None end
   | OSnapshot => let (s1, id) := snapshot s in Some (s1, Z.of_N id)
-  | ORevert id => match revert_to_snapshot s id with Some s1 => Some (s1, 0%Z) | None => None end
+  | ORevert id => match revert_to_snapshot fx s id with Some s1 => Some (s1, 0%Z) | None => None end
   | OFinalise d => Some (finalise d s, 0%Z)
   | OIntermediateRoot d => Some (intermediate_root d s, 0%Z)
   | OReopen d => Some (reopen d s, 0%Z)
   end.
 
 (* run a history; None = some call panicked *)
-Fixpoint run (ops : list op) (s : state) : option state :=
+Fixpoint run (fx : bool) (ops : list op) (s : state) : option state :=
   match ops with
   | [] => Some s
-  | o :: r => match step o s with Some (s1, _) => run r s1 | None => None end
+  | o :: r => match step fx o s with Some (s1, _) => run fx r s1 | None => None end
   end.
 
 (* ======================= observation ===================================== *)
@@ -782,27 +807,28 @@ Definition cks (l : list Z) : Z :=
 
 (* the trace of a history: per call, the checksum of (return value :: state read
    back); -1 and stop on a panic *)
-Fixpoint trace (ops : list op) (s : state) : list Z :=
+Fixpoint trace (fx : bool) (ops : list op) (s : state) : list Z :=
   match ops with
   | [] => []
   | o :: r =>
-    match step o s with
+    match step fx o s with
     | None => [(-1)%Z]
-    | Some (s1, ret) => cks (ret :: obs_full s1) :: trace r s1
+    | Some (s1, ret) => cks (ret :: obs_full s1) :: trace fx r s1
     end
   end.
-Fixpoint trace_full (ops : list op) (s : state) : list (list Z) :=
+Fixpoint trace_full (fx : bool) (ops : list op) (s : state) : list (list Z) :=
   match ops with
   | [] => []
   | o :: r =>
-    match step o s with
+    match step fx o s with
     | None => [[(-1)%Z]]
-    | Some (s1, ret) => (ret :: obs_full s1) :: trace_full r s1
+    | Some (s1, ret) => (ret :: obs_full s1) :: trace_full fx r s1
     end
   end.
 
 (* ---- correspondence runner ---------------------------------------------- *)
-Record case := mkCase { c_ops : list op; c_obs : list Z }.
+(* c_fixed: which of the two behaviours of [fx] the tree under test showed *)
+Record case := mkCase { c_fixed : bool; c_ops : list op; c_obs : list Z }.
 
 Fixpoint zl_eqb (a b : list Z) : bool :=
   match a, b with
@@ -810,7 +836,7 @@ Fixpoint zl_eqb (a b : list Z) : bool :=
   | x :: a', y :: b' => Z.eqb x y && zl_eqb a' b'
   | _, _ => false
   end.
-Definition case_ok (c : case) : bool := zl_eqb (trace (c_ops c) init) (c_obs c).
+Definition case_ok (c : case) : bool := zl_eqb (trace (c_fixed c) (c_ops c) init) (c_obs c).
 
 Fixpoint mismatches_from (i : N) (l : list case) : list N :=
   match l with
@@ -826,4 +852,4 @@ Fixpoint first_diff (a b : list Z) (i : N) : option N :=
   | x :: a', y :: b' => if Z.eqb x y then first_diff a' b' (i + 1) else Some i
   | _, _ => Some i
   end.
-Definition case_diff (c : case) : option N := first_diff (trace (c_ops c) init) (c_obs c) 0.
+Definition case_diff (c : case) : option N := first_diff (trace (c_fixed c) (c_ops c) init) (c_obs c) 0.
